@@ -30,4 +30,29 @@ def regenerate(repo, th, svh=None):
         raise RuntimeError('svh unicode failed: ' + r.stderr.decode()[-500:])
     src = (HEADER + "From Coq Require Import List NArith.\nImport ListNotations.\nLocal Open Scope N_scope.\n\n" + r.stdout.decode())
     info['gen_Unicode.v'] = 'rewritten' if write_if_changed(os.path.join(th, 'gen_Unicode.v'), src) else 'unchanged'
+    # --- the bash script template, its placeholders and the order of the replace chain (source scrape) ---
+    tpl = open(os.path.join(repo, 'src/executors/bash_runner.template'), 'rb').read()
+    rs = open(os.path.join(repo, 'src/executors/bash_runner.rs')).read()
+    body = rs[rs.index('fn run('):] if 'fn run(' in rs else rs
+    body = body[:body.index('#[cfg(test)]')] if '#[cfg(test)]' in body else body
+    order = re.findall(r'\.replace\(\s*"\{(\w+)\}"', body)
+    names = ['state_directory', 'name', 'shell_expression', 'excluded_variables', 'persist_state']
+    if sorted(order) != sorted(names):
+        raise RuntimeError('cannot scrape the replace chain of BashRunner::run: found %r' % order)
+    m = re.search(r'BASH_EXCLUDED_VARIABLES[^=]*=\s*&\[(.*?)\];', rs, re.S)
+    if not m:
+        raise RuntimeError('cannot scrape BASH_EXCLUDED_VARIABLES')
+    excluded = re.findall(r'"([^"]*)"', re.sub(r'//[^\n]*', '', m.group(1)))
+    def lst(b):
+        return '[' + '; '.join(str(x) for x in b) + ']'
+    src = (HEADER + "From Coq Require Import List NArith.\nImport ListNotations.\nLocal Open Scope N_scope.\n\n"
+           + "(* src/executors/bash_runner.template, byte for byte *)\nDefinition template : list N := " + lst(tpl) + ".\n\n"
+           + "(* placeholder texts, numbered 0 state_directory, 1 name, 2 shell_expression, 3 excluded_variables, 4 persist_state *)\n"
+           + "Definition ph_names : list (list N) := [" + '; '.join(lst(('{%s}' % n).encode()) for n in names) + "].\n\n"
+           + "(* the order in which BashRunner::run applies .replace(...) *)\nDefinition chain_order : list nat := ["
+           + '; '.join(str(names.index(o)) for o in order) + "]%nat.\n\n"
+           + "(* BASH_EXCLUDED_VARIABLES.join(\"|\") *)\nDefinition excluded_value : list N := " + lst('|'.join(excluded).encode()) + ".\n"
+           + "Definition excluded_names : list (list N) := [" + '; '.join(lst(e.encode()) for e in excluded) + "].\n")
+    info['gen_Template.v'] = 'rewritten' if write_if_changed(os.path.join(th, 'gen_Template.v'), src) else 'unchanged'
+    info['replace_chain'] = order
     return info
